@@ -235,3 +235,14 @@ Definition bad_mutants (cc : ccase) : list N :=
 
 Definition check_case (cc : ccase) : bool :=
   match bad_mutants cc with [] => true | _ => false end.
+
+(** ** pass C: the raw HTLC-transaction entry point.  One request: the supplied transaction,
+    redeemscript and amount, and what [decode_and_validate_htlc_tx] answered (fee rate, direction,
+    expiry, digest to sign) — the same under every policy filter the harness installs. *)
+Definition hreq : Type := tx * nat * N * option (N * bool * N * bytes).
+(** the redeemscripts of a batch are listed once; a request names its script by position *)
+Definition check_hreq (s : setup) (k : ckeys) (scripts : list bytes) (r : hreq) : bool :=
+  let '(t, ri, amount, expected) := r in
+  beq (decode_htlc_tx sha s k t (nth ri scripts []) amount) expected.
+Definition bad_hreqs (s : setup) (k : ckeys) (scripts : list bytes) (l : list hreq) : list N :=
+  failures (check_hreq s k scripts) l.
